@@ -212,6 +212,21 @@ int main(void)
       E.EN(raw,spf) = (unsigned)atoi(tok[3]);
       int r = gd_add(D, &E);
       printf("add_entry %d\n", r);
+    } else if (!strcmp(c, "alter_entry")) {
+      /* alter_entry name type spf recode : gd_alter_entry with a RAW gd_entry_t (type < 0: GD_NULL, spf 0: unchanged) */
+      gd_entry_t E;
+      memset(&E, 0, sizeof E);
+      E.field_type = GD_RAW_ENTRY;
+      E.EN(raw,data_type) = atoi(tok[2]) < 0 ? GD_NULL : T[atoi(tok[2])];
+      E.EN(raw,spf) = (unsigned)atoi(tok[3]);
+      int r = gd_alter_entry(D, tok[1], &E, atoi(tok[4]));
+      printf("alter_entry %d %d\n", r, (D->flags & GD_INVALID) ? 1 : 0);
+    } else if (!strcmp(c, "alter_spec")) {
+      /* alter_spec recode rest-of-line-tokens joined by blanks */
+      char spec[4096]; int i; spec[0] = 0;
+      for (i = 2; i < ntok; i++) { strcat(spec, tok[i]); if (i + 1 < ntok) strcat(spec, " "); }
+      int r = gd_alter_spec(D, spec, atoi(tok[1]));
+      printf("alter_spec %d %d\n", r, (D->flags & GD_INVALID) ? 1 : 0);
     } else if (!strcmp(c, "addspec")) {
       /* addspec frag rest-of-line-tokens joined by blanks */
       char spec[4096]; int i; spec[0] = 0;
